@@ -7,7 +7,7 @@ EXTENDS Splay, Json
 
 VARIABLE hist
 
-KeyOf(n) == IF n = NULL THEN 0 ELSE key[n]
+KeyOf(n) == IF n = NULL THEN 0 ELSE IF n \in Nodes THEN key[n] ELSE -9    \* -9: no live node (BugStaleLinks only)
 View == <<Shape, {<<key[n], KeyOf(l[n]), KeyOf(r[n]), KeyOf(prv[n]), KeyOf(nxt[n])>> : n \in Nodes}, count>>
 
 MCInit == Init /\ hist = <<>>
